@@ -7,6 +7,7 @@ from analysis import chessref as R
 from analysis.cfg import cfg_of
 from analysis.effects import subterms
 
+THOROUGH_CONFIGS = ['release', 'nobmi2']
 LEVEL = "other"
 VERIF = os.path.dirname(os.path.dirname(os.path.abspath(__file__)))
 DECIDED = ("Every unsafe operation (HIR), every Assert terminator (overflow, bounds, division, pointer checks) and every call into the panic family in the seven shipped library crates is an "
@@ -486,12 +487,13 @@ def r1(ctx):
     sites = O.enumerate_sites(P)
     auto = auto_discharge(P, sites)
     ledger = load_ledger()
-    ctx.floor("obligation sites enumerated", len(sites), 200)
+    checked = P.crates["chess_bitboard"]["cfg"].get("overflow_checks", True)
+    ctx.floor("obligation sites enumerated", len(sites), 200 if checked else 100)
     n_unsafe_hir = sum(len([o for o in u["ops"] if not (o.get("callee", "") or "").startswith("core::fmt::")]) for u in P.unsafe_blocks
                        if u["crate"] in O.CORE and not O.GENERATED.search(u["fn"]) and not (u.get("exp") and all(o.get("callee", "").startswith("core::fmt::") for o in u["ops"])))
     n_unsafe = len([s for s in sites if s["kind"] == "unsafe"])
     ctx.ob("unsafe operations = HIR count", n_unsafe == n_unsafe_hir and n_unsafe >= 35, f"{n_unsafe} unsafe operations enumerated, HIR has {n_unsafe_hir}", sample={"unsafe_ops": n_unsafe})
-    ctx.floor("automatically discharged sites", len(auto), 80)
+    ctx.floor("automatically discharged sites", len(auto), 80 if checked else 20)
     classes = {}
     used_inv, used_chk = set(), set()
     for s in sites:
